@@ -56,6 +56,23 @@ def snapshot(seg):
     return snap
 
 
+def value_snapshot(seg):
+    """Like snapshot() but by value only (ignores memory layout, byte order and integer width)."""
+    def ints(a):
+        a = np.asarray(a)
+        return (tuple(a.shape), [int(v) for v in a.ravel().tolist()]) if a.size < 64 else \
+            (tuple(a.shape), np.ascontiguousarray(a).astype(np.int64).tobytes())
+    if seg is None:
+        return {'none': True}
+    snap = {'data': ints(seg.data), 'labels': ints(seg.labels), 'deblended_labels': ints(seg.deblended_labels),
+            'deblended_labels_map': sorted((int(k), int(v)) for k, v in seg.deblended_labels_map.items()),
+            'deblended_labels_inverse_map': [(int(k), ints(v)) for k, v in seg.deblended_labels_inverse_map.items()]}
+    info = getattr(seg, 'info', None)
+    w = info.get('warnings', {}) if isinstance(info, dict) else {}
+    snap['info'] = [(k, v.get('message'), ints(v.get('input_labels'))) for k, v in w.items()]
+    return snap
+
+
 def diff_snapshots(a, b):
     """Names of the fields that differ (empty list = bit-identical)."""
     keys = sorted(set(a) | set(b))
@@ -292,7 +309,8 @@ def real_pool_main(spec_path, out_path):
     res['ref_nsplit'] = len(ref.deblended_labels_inverse_map)
 
     real_as_completed = d.as_completed
-    for nproc in spec['nprocs']:
+
+    def pool_run(nproc, kw_, ref_snap_, call):
         consumed = []
         holder = {}
 
@@ -304,11 +322,11 @@ def real_pool_main(spec_path, out_path):
 
         d.as_completed = recording_as_completed
         t0 = time.time()
-        run = {'nproc': nproc}
+        run = {'nproc': nproc, 'call': call, 'mode': kw_['mode']}
         try:
             out = deblend_sources(data, seg, labels=labels_arg, connectivity=built['conn'],
-                                  nproc=nproc, progress_bar=False, **kw)
-            run['diff'] = diff_snapshots(ref_snap, snapshot(out))
+                                  nproc=nproc, progress_bar=False, **kw_)
+            run['diff'] = diff_snapshots(ref_snap_, snapshot(out))
             run['raised'] = None
         except Exception as exc:  # noqa: BLE001  reported to the driver, which makes it a verdict
             run['diff'] = None
@@ -321,6 +339,19 @@ def real_pool_main(spec_path, out_path):
         run['n_tasks'] = len(holder.get('fs', ()))
         run['input_unchanged'] = seg.data.tobytes() == seg_bytes
         res['runs'].append(run)
+
+    # call A: the drawn arguments, every requested nproc
+    for nproc in spec['nprocs']:
+        pool_run(nproc, kw, ref_snap, 'A')
+    # call B in the same process (and a second generation of spawned children): another mode; then A again
+    others = [m for m in ('exponential', 'linear', 'sinh') if m != kw['mode']]
+    kwB = dict(kw, mode=others[int(spec['idx']) % 2])
+    refB = deblend_sources(data, seg, labels=labels_arg, connectivity=built['conn'], nproc=1,
+                           progress_bar=False, **kwB)
+    pool_run(spec['nprocs'][0], kwB, snapshot(refB), 'B')
+    again = deblend_sources(data, seg, labels=labels_arg, connectivity=built['conn'], nproc=1,
+                            progress_bar=False, **kw)
+    res['serial_again_diff'] = diff_snapshots(ref_snap, snapshot(again))
     with open(out_path, 'w') as f:
         json.dump(res, f)
     return 0
